@@ -5,10 +5,21 @@ COMMON_TB = []
 
 PROPS = {
     "C09": {
-        "lean_modules": ["JrpcProofs.Props.C09", "JrpcProofs.Facts.Codes", "JrpcProofs.Facts.Wire"],
+        "lean_modules": ["JrpcProofs.Props.C09", "JrpcProofs.Facts.Codes", "JrpcProofs.Facts.Wire", "JrpcProofs.Facts.Dispatch"],
         "assumptions": [
             "encoding/json is an oracle: the harness tells the model, per params element, which declared types it decodes into",
             "message texts of library errors are not compared (codes, ids, shape, status and handler invocations are)",
         ],
+    },
+    "C12": {
+        "lean_modules": ["JrpcProofs.Props.C12", "JrpcProofs.Facts.Dispatch", "JrpcProofs.Facts.Codes"],
+        "assumptions": [
+            "method names start with an ASCII letter (Go identifiers in the harness do); the lower-first formatter slices one byte",
+            "encoding/json is an oracle for per-parameter decodability",
+        ],
+    },
+    "C19": {
+        "lean_modules": ["JrpcProofs.Props.C19"],
+        "assumptions": ["net/http delivers header and form values as documented; permissions are compared for equality only"],
     },
 }
